@@ -716,11 +716,22 @@ func writeLoopShape(c *Ctx, f *ssa.Function, field string, shift int64) (bool, s
 			why = fmt.Sprintf("the loop that writes the digits of %s does not shift by %d bits per octet", field, shift)
 			return
 		}
-		// index = ... - counter ...: coefficient of the loop counter phi is -1
+		// the position moves down by one per iteration: (coefficient of the loop
+		// counter in the index) x (the counter's step) = -1 - `n-1-j` with j++ as
+		// well as `j` with j--
 		idx := fe.eval(ia.Index)
 		neg := false
 		for mono, cf := range idx {
-			if strings.HasPrefix(mono, "phi:") && cf == -1 {
+			if !strings.HasPrefix(mono, "phi:") {
+				continue
+			}
+			step := int64(1)
+			if ph, ok := fe.atoms[mono].(*ssa.Phi); ok {
+				if s, ok := phiStep(ph); ok {
+					step = s
+				}
+			}
+			if cf*step == -1 {
 				neg = true
 			}
 		}
@@ -831,7 +842,7 @@ func digitSource(v ssa.Value, field string, depth int) bool {
 			return false
 		}
 		for _, e := range x.Edges {
-			if p, ok := e.(*ssa.Parameter); ok && isIntegerType(p.Type()) {
+			if p, ok := stripConv(e).(*ssa.Parameter); ok && isIntegerType(p.Type()) {
 				return true
 			}
 		}
@@ -839,4 +850,35 @@ func digitSource(v ssa.Value, field string, depth int) bool {
 		return field == "" && isIntegerType(x.Type())
 	}
 	return false
+}
+
+// phiStep: the constant a loop-carried variable changes by per iteration
+// (phi = [init, phi + k] or [init, phi - k]).
+func phiStep(ph *ssa.Phi) (int64, bool) {
+	step, found := int64(0), false
+	for _, e := range ph.Edges {
+		bo, ok := e.(*ssa.BinOp)
+		if !ok || (bo.Op != token.ADD && bo.Op != token.SUB) {
+			continue
+		}
+		var k int64
+		var isK bool
+		switch {
+		case bo.X == ssa.Value(ph):
+			k, isK = constInt(bo.Y)
+		case bo.Y == ssa.Value(ph) && bo.Op == token.ADD:
+			k, isK = constInt(bo.X)
+		}
+		if !isK {
+			continue
+		}
+		if bo.Op == token.SUB {
+			k = -k
+		}
+		if found && k != step {
+			return 0, false
+		}
+		step, found = k, true
+	}
+	return step, found
 }
